@@ -72,6 +72,19 @@ def run(ctx):
                               {'fn': cls_name, 'what': 'raises', 'planes': n})
                 continue
             masks = obj_nb.masks.numpy()                   # [n, ch, h, w]
+            # what get_targets hands out is the caller's copy: a caller that rescales / clears it (display, normalisation) does not change what the
+            # next query returns, nor what the loss compares with
+            first = [t.clone() for t in obj_nb.get_targets()]
+            handed = obj_nb.get_targets()
+            for t in handed:
+                if t.numel():
+                    t.mul_(0.5).add_(3.0)
+            again = obj_nb.get_targets()
+            ctx.count('get_targets/queried again after the caller changed what it got')
+            if any(a.shape != b.shape or not torch.equal(a, b) for a, b in zip(first, again)):
+                ctx.violation('%s.get_targets(): after the caller changed the tensors it was handed, the next query returns other targets than the first '
+                              '(max difference %.3g): the object hands out its own storage' % (cls_name, max(float((a - b).abs().max()) for a, b in zip(first, again) if a.shape == b.shape and a.numel())),
+                              dict(rec, cls=cls_name), {'fn': cls_name, 'what': 'targets_handed_out_by_reference', 'planes': n})
             targets_nb, focus, _ = obj_nb.get_targets()
             targets_nb, focus = targets_nb.numpy(), focus.numpy()
             targets_df = obj.get_targets()[0].numpy()
